@@ -50,7 +50,7 @@ static one_result run_one(int proto,std::string const &stream,std::vector<int> c
 
 // ---------------------------------------------------------------- cut patterns
 typedef std::vector<int> cutset;
-static void cut_patterns(size_t n,bool quick,vt::rng &rng,std::vector<cutset> &out,bool is_long)
+static void cut_patterns(size_t n,bool quick,vt::rng &rng,std::vector<cutset> &out,bool is_long,size_t all2max=72)
 {
 	out.push_back(cutset());
 	if(n<2) return;
@@ -72,7 +72,7 @@ static void cut_patterns(size_t n,bool quick,vt::rng &rng,std::vector<cutset> &o
 	{ cutset c; for(size_t i=1;i<n;i++) c.push_back(i); out.push_back(c); }                    // every byte on its own
 	// one-byte segment at every position
 	for(size_t i=1;i+1<n;i+=(quick?3:1)) { cutset c; c.push_back(i); c.push_back(i+1); out.push_back(c); }
-	if(!quick && n<=72) {
+	if(!quick && n<=all2max) {
 		for(size_t i=1;i<n;i++) for(size_t j=i+2;j<n;j++) { cutset c; c.push_back(i); c.push_back(j); out.push_back(c); }
 	}
 	else {
@@ -92,8 +92,11 @@ struct group { std::vector<cutset> cuts; std::string ojson; };
 static void run_patterns(int proto,std::string const &stream,int nrep,std::vector<cutset> const &pats)
 {
 	std::map<std::string,group> groups; std::vector<std::string> order;
+	int timeouts=0;
 	for(size_t k=0;k<pats.size();k++) {
-		one_result r=run_one(proto,stream,pats[k],nrep);
+		if(timeouts>=4) break;       // the front-end hangs on this stream: that is already a rejected observation, do not wait for every pattern
+		one_result r=run_one(proto,stream,pats[k],nrep,timeouts?1.0:10.0);
+		if(r.end=='t') timeouts++;
 		std::string key; key+=r.end;
 		for(size_t i=0;i<r.replies.size();i++) { key+=dec(r.replies[i].first)+":"+dec(r.replies[i].second.size())+":"+r.replies[i].second; }
 		std::map<std::string,group>::iterator p=groups.find(key);
@@ -154,7 +157,7 @@ static void c01_request(absreq const &r,bool quick,vt::rng &rng,bool is_long)
 			}
 			bool logwire = wire.size()<=600;
 			emit(jreq(r,proto,1,logwire?&wire:0,var));
-			std::vector<cutset> pats; cut_patterns(wire.size(),quick || v>=2,rng,pats,is_long);
+			std::vector<cutset> pats; cut_patterns(wire.size(),quick || v>=2,rng,pats,is_long,v==0?130:72);
 			run_patterns(proto,wire,1,pats);
 		}
 	}
